@@ -140,7 +140,7 @@ func TestDrawnSubsets(t *testing.T) {
 func TestParsedPrograms(t *testing.T) {
 	harness.Check(t, "parsed-programs", 4000, 150000, func(rt *rapid.T) {
 		v := rapid.SampledFrom(px.KeyVersions).Draw(rt, "version")
-		c := progs.Draw(rt, v, progs.Options(v), 1, 4)
+		c := progs.Draw(rt, v, progs.StructuralOptions(v), 1, 4)
 		lay := c.G.Render(c.Root, progs.Policy(rt, phpgen.PolicyFull, nil))
 		r := px.Parse(lay.Src, v, true)
 		if r.Root == nil || len(r.Errs) > 0 {
